@@ -187,6 +187,30 @@ Proof. unfold M_Partition_smaller_block, Partition_smaller_block. cbv [bind]. de
 Lemma canon_fp_pick_element p i : M_Partition_pick_element p i = M_BasePartition_pick_element (Partition_base p) i.
 Proof. unfold M_Partition_pick_element, Partition_pick_element. cbv [bind]. destruct (M_BasePartition_pick_element (Partition_base p) i); reflexivity. Qed.
 
+(* block_elements: the iterator yields exactly the slice of the block, in both partition types *)
+Lemma canon_block_elements p i : M_BasePartition_block_elements p i = M_BasePartition_slice p i.
+Proof. unfold M_BasePartition_block_elements, BasePartition_block_elements. cbv [bind]. destruct (M_BasePartition_slice p i); reflexivity. Qed.
+Lemma canon_fp_block_elements p i : M_Partition_block_elements p i = M_BasePartition_slice (Partition_base p) i.
+Proof.
+  unfold M_Partition_block_elements, Partition_block_elements. cbv [bind]. rewrite canon_block_elements.
+  destruct (M_BasePartition_slice (Partition_base p) i); reflexivity.
+Qed.
+Lemma link_block_elements p i h : nth_error (BasePartition_block p) (N.to_nat i) = Some h ->
+  BlockHeader_start h <= BlockHeader_end h <= length (BasePartition_segment p) ->
+  option_map (map N.to_nat) (M_BasePartition_block_elements p i) = Some (bp_elements (convbp p) (N.to_nat i)).
+Proof. intros H1 H2. rewrite canon_block_elements. apply (link_slice _ _ h); assumption. Qed.
+Lemma link_fp_block_elements p i h : nth_error (BasePartition_block (Partition_base p)) (N.to_nat i) = Some h ->
+  BlockHeader_start h <= BlockHeader_end h <= length (BasePartition_segment (Partition_base p)) ->
+  option_map (map N.to_nat) (M_Partition_block_elements p i) = Some (bp_elements (fp_base (convfp p)) (N.to_nat i)).
+Proof. intros H1 H2. rewrite canon_fp_block_elements. apply (link_slice _ _ h); assumption. Qed.
+(* an index outside the block table is a panic, never an empty iterator *)
+Lemma link_block_elements_out p i : length (BasePartition_block p) <= N.to_nat i -> M_BasePartition_block_elements p i = None.
+Proof.
+  intros H. rewrite canon_block_elements. unfold M_BasePartition_slice, BasePartition_slice.
+  replace (nth_error (BasePartition_block p) (N.to_nat i)) with (@None BlockHeader) by (symmetry; apply nth_error_None; exact H).
+  reflexivity.
+Qed.
+
 Lemma link_fp_num_blocks p : fits (length (BasePartition_block (Partition_base p))) ->
   M_Partition_num_blocks p = Some (N.of_nat (bp_num_blocks (fp_base (convfp p)))).
 Proof. intros H. rewrite canon_fp_num_blocks. apply link_num_blocks. exact H. Qed.
